@@ -71,7 +71,8 @@ func (cq *clntQuerier) Query(ctx context.Context, req *api.QueryRequest, res *ap
 	}
 	cq.rc.Collect(resp)
 
-	return nil
+	// an answer that could not be decoded completely is a failed query
+	return err
 }
 
 func NewServerQuerier() *ServerQuerier {
